@@ -23,14 +23,17 @@ RULE = ("random discrete Bayesian networks (1-6 nodes; chains, forks, colliders,
         "tuple / mixed) x sampler kind: forward (partial_samples, include_latents), rejection (evidence drawn from a "
         "positive-probability assignment, partial_samples), likelihood weighting (weights column), Gibbs "
         "transition_models (Bayesian and Markov networks) and Gibbs.sample, simulate (do / evidence / virtual evidence / "
-        "include_latents).  ORACLE kinds: numpy.random.choice is replaced in the worker by a recording oracle with "
+        "include_latents); the same kinds again with DECIMAL-ROUNDED columns (4 decimals, sum off by up to +-1e-3 in both "
+        "directions, exact zeros first / last / middle, maximum anywhere; root priors reach _adjusted_weights un-normalised, "
+        "|1-sum| > 1e-3 must raise ValueError <-> model error 1) so that the adjustment is not the identity.  ORACLE kinds: numpy.random.choice is replaced in the worker by a recording oracle with "
         "pre-decided answers; every call's (p, size) and the whole returned frame must equal the extracted model's; "
         "besides, pgmpy's own weight maps (pre_compute_reduce_maps) must equal the CPD columns and transition_models the "
         "brute-force full conditional (the property predicate evaluated on the real code).  STRUCT kinds run the real "
         "RNG: exactly `size` rows, valid state names, zero-probability cells never occur, evidence/do columns fixed, "
         "LW weight = product of evidence CPD entries recomputed from the row, latent columns only on request, same "
         "seed twice => identical frames (different seeds: difference is only tallied), missingness only in "
-        "missing_columns.  CHI2 kind = SUPPORTING TEST ONLY: chi-square goodness of fit of forward_sample(4000) to the "
+        "missing_columns; GibbsSampling.sample leaves the caller's start_state list alone.  STRUCT_DEC kind = SUPPORTING TEST: "
+        "4000 real-RNG rows on decimal-rounded networks, a state whose CPD entry is exactly 0 never appears.  CHI2 kind = SUPPORTING TEST ONLY: chi-square goodness of fit of forward_sample(4000) to the "
         "exact joint at alpha = 1e-6 (a statistical test, not a proof; listed separately in tags).  A case is "
         "non-trivial when >= 1 node has a parent and >= 1 oracle draw / table entry was compared; distinct = distinct "
         "(kind, network, options) after canonicalisation")
@@ -107,7 +110,37 @@ def gen_names(rng, card, style):
     return pool[:card]
 
 
-def gen_net(rng, nmax=6, styles=None, zeros=True, maxcard=4, min_edges=0, str_nodes=False):
+def dec_column(rng, card, root, far=False):
+    """a column typed with 4 decimals: sums to 1 + d*1e-4 with d in -9..9 (far: |d| in 12..40, roots only), exact
+    zeros in first / last / middle positions, the maximum wherever the split puts it.  Returned as the exact
+    rationals of the floats pgmpy receives."""
+    if card == 1:
+        d = rng.choice([0, 0, -3, 4]) if root else 0
+        return [Fraction(float((10000 + d) / 10000.0))]
+    d = rng.choice([-9, -7, -4, -1, 1, 2, 5, 9, 9, -9, 0])
+    if far and root:
+        d = rng.choice([12, -15, 25, -40])
+    zpos = set()
+    how = rng.choice(["none", "last", "last", "first", "middle", "two"])
+    if how == "last":
+        zpos = {card - 1}
+    elif how == "first":
+        zpos = {0}
+    elif how == "middle" and card >= 3:
+        zpos = {rng.randrange(1, card - 1)}
+    elif how == "two" and card >= 3:
+        zpos = set(rng.sample(range(card), 2))
+    nz = [i for i in range(card) if i not in zpos]
+    total = 10000 + d
+    cuts = sorted(rng.randint(1, total - 1) for _ in range(len(nz) - 1))
+    parts = [b_ - a_ for a_, b_ in zip([0] + cuts, cuts + [total])]
+    col = [Fraction(0)] * card
+    for i, k in zip(nz, parts):
+        col[i] = Fraction(float(round(k / 10000.0, 4)))
+    return col
+
+
+def gen_net(rng, nmax=6, styles=None, zeros=True, maxcard=4, min_edges=0, str_nodes=False, dec=False, far=False):
     n = rng.randint(1, nmax)
     shape = rng.choice(["rand", "rand", "chain", "fork", "collider", "family", "isolated"])
     ids = list(range(n))
@@ -160,7 +193,9 @@ def gen_net(rng, nmax=6, styles=None, zeros=True, maxcard=4, min_edges=0, str_no
         cols = []
         for _ in range(ncol):
             r = rng.random()
-            if zeros and r < 0.25:
+            if dec and (not pars[str(v)] or r < 0.7):
+                col = dec_column(rng, card[v], root=not pars[str(v)], far=far)
+            elif zeros and r < 0.25:
                 col = [Fraction(0)] * card[v]
                 col[rng.randrange(card[v])] = Fraction(1)
             else:
@@ -207,6 +242,30 @@ def cases(tier, seed):
         c["size"] = rng.choice([1, 2, 3, 5, 8, 13, 30])
         c["incl"] = rng.random() < 0.5
         c["partial"] = rng.random() < 0.3
+        out.append(c)
+    # decimal-rounded CPD columns (sum != 1 by up to +-1e-3): _adjusted_weights is NOT the identity
+    for _ in range(90 * mult):
+        far = rng.random() < 0.12
+        c = opt("forward", min_edges=1 if rng.random() < 0.6 else 0, dec=True, far=far)
+        c["size"] = rng.choice([1, 2, 3, 5, 8, 13, 30])
+        c["incl"] = rng.random() < 0.5
+        c["partial"] = rng.random() < 0.2
+        c["dec"] = True
+        out.append(c)
+    for k_ in ("reject", "lw", "simulate"):
+        for _ in range(40 * mult):
+            c = opt(k_, min_edges=1 if rng.random() < 0.6 else 0, dec=True, str_nodes=True)
+            c["size"] = rng.choice([1, 2, 3, 5, 8, 20])
+            c["incl"] = rng.random() < 0.5
+            c["partial"] = False
+            c["nev"] = rng.choice([0, 1, 1, 2])
+            c["ndo"] = rng.choice([0, 1])
+            c["nvirt"] = rng.choice([0, 0, 1])
+            c["dec"] = True
+            out.append(c)
+    for _ in range(16 * mult):
+        c = opt("struct_dec", nmax=4, min_edges=0, dec=True, str_nodes=True)
+        c["seed"] = rng.randint(0, 10**6)
         out.append(c)
     for _ in range(110 * mult):
         c = opt("reject", min_edges=1)
@@ -414,6 +473,10 @@ class Oracle:
         a = np.asarray(a)
         m = 1 if size is None else int(size)
         pl = [float(x) for x in p]
+        if any(x < 0 for x in pl):
+            raise ValueError("probabilities are not non-negative")
+        if abs(sum(pl) - 1.0) > 1.5e-8:
+            raise ValueError("probabilities do not sum to 1")
         if len(self.calls) >= MAXCALLS or self.ndraws + m > MAXDRAWS:
             raise OracleLimit()
         ans = []
@@ -497,6 +560,8 @@ def spec_weight_maps(N, model):
                 w = [float(x) for x in i2w[int(s2i[t])]]
                 asg = dict(zip(eids, t))
                 exp = [N.entry(v, k, asg) for k in range(N.card[v])]
+                tot = sum(exp)
+                exp = [x / tot for x in exp]      # _reduce_marg normalises (identity for exact columns)
                 if not all(common.approx(a, b) for a, b in zip(w, exp)):
                     return {"node": repr(N.node[v]), "evidence": repr(evid), "parent_state_numbers": list(t),
                             "weights": w, "cpd_column": [str(x) for x in exp]}
@@ -564,6 +629,8 @@ def run_kind(case, drv, N, model, key, tags, kind):
         return run_struct(case, N, model, key, tags)
     if kind == "chi2":
         return run_chi2(case, N, model, key, tags)
+    if kind == "struct_dec":
+        return run_struct_dec(case, N, model, key, tags)
     raise ValueError(kind)
 
 
@@ -576,11 +643,22 @@ def run_forward(case, drv, N, model, key, tags):
     partial = gen_partial(N, rng, size) if case.get("partial") else []
     s = BayesianModelSampling(model)
     order = [N.id[x] for x in s.topological_order]
+    impl_err = None
     with oracle(case["oseed"]) as o:
-        df = s.forward_sample(size=size, include_latents=incl, show_progress=False,
-                              partial_samples=partial_df(N, partial) if partial else None)
-    tags += ["size=%d" % size, "incl=%s" % incl, "partial=%d" % len(partial), "calls=%d" % len(o.calls)]
-    r = drv.call("c07_forward", [N.sx(model), order, size, incl, partial, o.draws()])
+        try:
+            df = s.forward_sample(size=size, include_latents=incl, show_progress=False,
+                                  partial_samples=partial_df(N, partial) if partial else None)
+        except ValueError as e:
+            impl_err = str(e)[:80]
+    tags += ["size=%d" % size, "incl=%s" % incl, "partial=%d" % len(partial), "calls=%d" % len(o.calls),
+             "dec=%s" % bool(case.get("dec"))]
+    st, r = drv.call_e("c07_forward", [N.sx(model), order, size, incl, partial, o.draws() + ([0] * 64 if impl_err else [])])
+    if impl_err is not None or st == "err":
+        # _adjusted_weights raises ValueError when |1 - sum| > 1e-3  <->  model error 1
+        if impl_err is not None and st == "err" and r == 1 and "sum to 1" in impl_err:
+            return ok(nontrivial=True, key=key, tags=tags + ["error=ValueError(sum)"])
+        return bad("impl!=model", {"what": "impl error %r, model %r" % (impl_err, (st, r if st == "err" else "ok")),
+                                   "case": case}, key=key, tags=tags)
     cols, rows, mcalls, consumed = r
     d = cmp_calls(o, mcalls)
     if d is None and consumed != len(o.draws()):
@@ -778,14 +856,19 @@ def run_gibbs(case, drv, N, model, key, tags):
     start = [asg[v] for v in vars_]
     nan = any(not w for _, t in mk for _, w in t)
     if not nan:
-        from pgmpy.sampling.Sampling import State
+        from pgmpy.factors.discrete import State
 
         g2 = GibbsSampling(model)
         with oracle(case["oseed"]) as o:
             try:
-                df = g2.sample(start_state=[State(N.node[v], s) for v, s in zip(vars_, start)], size=size,
-                               include_latents=True)
+                start_states = [State(N.node[v], s) for v, s in zip(vars_, start)]
+                snapshot = list(start_states)
+                df = g2.sample(start_state=start_states, size=size, include_latents=True)
                 err = None
+                if start_states != snapshot:
+                    return bad("mutated-argument", {"what": "GibbsSampling.sample changed the caller's start_state "
+                                                            "list", "before": repr(snapshot), "after": repr(start_states),
+                                                    "case": case}, key=key, tags=tags)
             except ValueError as e:
                 err = "ValueError"
         if err is None:
@@ -1199,6 +1282,48 @@ def run_do_zero(case):
     if len(df) != 3 or any(x != "b" for x in df["X"].tolist()):
         return bad("structural", {"what": "do column not fixed / row count", "case": case}, key=key, tags=tags)
     return ok(nontrivial=True, key=key, tags=tags)
+
+
+def run_struct_dec(case, N, model, key, tags):
+    """SUPPORTING TEST (real RNG, a few thousand rows): with decimal-rounded columns that do not sum to 1, a state
+    whose CPD entry is exactly 0 never appears in forward / rejection / likelihood-weighted samples"""
+    from pgmpy.sampling import BayesianModelSampling
+    from pgmpy.factors.discrete import State
+
+    tags += ["supporting-test=zero-entry-never-sampled"]
+    haszero = any(x == 0 for l in N.vals for x in l)
+    try:
+        with time_limit(90):
+            s = BayesianModelSampling(model)
+            frames = [("forward_sample", s.forward_sample(size=4000, seed=case["seed"], show_progress=False,
+                                                           include_latents=True))]
+            roots = [v for v in range(N.n) if not N.pars[v] and N.card[v] >= 2]
+            if roots:
+                v = roots[0]
+                k = max(range(N.card[v]), key=lambda i: N.vals[v][i])
+                others = [u for u in range(N.n) if u != v]
+                ev = [State(N.node[v], N.names[v][k])]
+                frames.append(("likelihood_weighted_sample",
+                               s.likelihood_weighted_sample(evidence=ev, size=4000, seed=case["seed"],
+                                                            show_progress=False, include_latents=True)))
+                if N.vals[v][k] >= Fraction(1, 4):
+                    frames.append(("rejection_sample",
+                                   s.rejection_sample(evidence=ev, size=2000, seed=case["seed"], show_progress=False,
+                                                      include_latents=True)))
+    except Hang:
+        return bad("structural", {"what": "a sampler did not return within 90 s", "case": case}, key=key, tags=tags)
+    except ValueError as e:
+        return bad("structural", {"what": "sampler raised ValueError: %s" % str(e)[:100], "case": case}, key=key,
+                   tags=tags)
+    for name, df in frames:
+        rows, e = rows_numbers(N, df)
+        if e:
+            return bad("structural", {"what": name + ": " + e, "case": case}, key=key, tags=tags)
+        z = zero_cell(N, rows)
+        if z:
+            return bad("impl!=spec", {"what": name + " produced a state whose CPD entry is exactly 0", "where": z,
+                                      "case": case}, key=key, tags=tags)
+    return ok(nontrivial=haszero, key=key, tags=tags)
 
 
 def exact_prob(N, ev):
